@@ -37,6 +37,10 @@ type Universe struct {
 	// EmptyRefs: known-finding slice — some references to the referrer's own resource root are
 	// spelled as the empty string (RFC 3986: the base URI itself).
 	EmptyRefs bool `json:"empty_refs,omitempty"`
+	// Standalone: URIs of resources that are embedded in a Loader document and are ALSO served by
+	// the Loader on their own (same content). Only those may be named from other documents
+	// (restriction (a)); they are never chosen for loader faults.
+	Standalone []string `json:"standalone,omitempty"`
 }
 
 // Route is a path of property names from the root; following it ends at the node whose
@@ -89,6 +93,8 @@ type gen struct {
 	hasBase bool
 	notes   []string
 	empty   bool // known-finding slice: spell some self references as ""
+	// embedded resources of Loader documents that the Loader also serves on their own
+	standalone map[*node]bool
 }
 
 func (g *gen) n(k int, l string) int { return rapid.IntRange(0, k-1).Draw(g.t, l) }
@@ -129,6 +135,14 @@ func Gen(t *rapid.T) *Universe {
 	for _, d := range g.docs {
 		g.buildTree(d)
 	}
+	g.standalone = map[*node]bool{}
+	if loader {
+		for _, n := range g.nodes {
+			if n.resource == n && n.parent != nil && !n.doc.isRoot && n.base.Scheme == "http" && g.n(3, "standalone") == 0 {
+				g.standalone[n] = true
+			}
+		}
+	}
 	for _, n := range g.nodes {
 		g.chooseRefs(n)
 	}
@@ -146,6 +160,20 @@ func Gen(t *rapid.T) *Universe {
 			}
 		}
 	}
+	for _, n := range g.nodes {
+		if g.standalone[n] {
+			uri := n.base.String()
+			if _, taken := u.Docs[uri]; !taken {
+				cp := g.render(n).Clone()
+				// on its own the resource is retrieved from its canonical URI; a relative $id would
+				// be resolved against that instead of against the embedding resource
+				cp.Set("$id", jv.StrV(uri))
+				u.Docs[uri] = cp
+				u.Standalone = append(u.Standalone, uri)
+			}
+		}
+	}
+	sort.Strings(u.Standalone)
 	for _, n := range g.nodes {
 		u.Markers = append(u.Markers, n.marker)
 	}
@@ -300,12 +328,37 @@ func (n *node) computePtrs() {
 
 // identifications lists the ways target tg can be named from referrer rf, as absolute
 // "uri#fragment" strings plus a kind label.
+// standaloneRoot: the innermost ancestor-or-self of n that is also served on its own, or nil
+// (whatever lies within the innermost one lies within the outer ones as well).
+func (g *gen) standaloneRoot(n *node) *node {
+	for x := n; x != nil; x = x.parent {
+		if g.standalone[x] {
+			return x
+		}
+	}
+	return nil
+}
+
+func within(n, root *node) bool {
+	for x := n; x != nil; x = x.parent {
+		if x == root {
+			return true
+		}
+	}
+	return false
+}
+
 func (g *gen) identifications(rf, tg *node) (out [][2]string) {
 	sameDoc := rf.doc == tg.doc
+	if sr := g.standaloneRoot(rf); sr != nil && !within(tg, sr) {
+		// rf also lives in a document of its own (the standalone copy of sr), which must be
+		// self-contained: whatever lies outside sr is another document to it
+		sameDoc = false
+	}
 	res := tg.resource
 	resURI := res.base.String()
 	// restriction (a): across documents only the target document's root resource is nameable
-	if !sameDoc && res != tg.doc.root {
+	if !sameDoc && res != tg.doc.root && !g.standalone[res] {
 		return nil
 	}
 	// restriction (c): a base-less, id-less root resource can only be named by fragment-only refs
